@@ -582,6 +582,9 @@ def build_pipeline_inspection(
     # Keys that must be present in the initial payload context: a key counts when a
     # node needs it at a point where no earlier node has created (or deleted) it.
     external_required: set[str] = set()
+    # Defaulted parameters whose key nobody has written yet: if a later node turns
+    # the key into a required one, the initial context overrides the default.
+    pending_defaults: List[Tuple[NodeInspection, str]] = []
     errors: List[str] = []
 
     # Process each node configuration
@@ -705,6 +708,7 @@ def build_pipeline_inspection(
         default_params: Dict[str, Any] = {}
         context_params: Dict[str, Optional[int]] = {}
         required_params: set[str] = set()
+        overridable_defaults: List[str] = []
         for name in param_details.keys():
             origin, origin_idx, default_value = inspect_origin(
                 name=name,
@@ -721,6 +725,8 @@ def build_pipeline_inspection(
             elif origin == "default":
                 config_params[name] = default_value
                 default_params[name] = default_value
+                if name not in deleted_keys:
+                    overridable_defaults.append(name)
             elif origin == "required":
                 context_params[name] = origin_idx
                 required_params.add(name)
@@ -837,6 +843,16 @@ def build_pipeline_inspection(
             if view:
                 node_inspection.preprocessor_view = view
         inspection_nodes.append(node_inspection)
+        for name in overridable_defaults:
+            pending_defaults.append((node_inspection, name))
+
+    # A defaulted parameter resolves from the initial context (context > default)
+    # when its key is required there by another node of the same pipeline.
+    for node_inspection, name in pending_defaults:
+        if name in external_required:
+            node_inspection.default_params.pop(name, None)
+            node_inspection.config_params.pop(name, None)
+            node_inspection.context_params[name] = None
 
     # Calculate pipeline-level required context keys
     # These are parameters a node needs before any node has created them
